@@ -225,8 +225,13 @@ inline bool arg_matcher(const char *pattern, const char *args)
     const char *arg_str = args;
     bool      arg_match = *pattern || *pattern == *arg_str;
 
-    while(*pattern && *pattern != ':')
-        arg_match &= (*pattern++==*arg_str++);
+    while(*pattern && *pattern != ':') {
+        //do not step over the end of the message's type string
+        arg_match &= (*pattern==*arg_str);
+        ++pattern;
+        if(*arg_str)
+            ++arg_str;
+    }
 
     if(*pattern==':') {
         if(arg_match && !*arg_str)
@@ -278,8 +283,13 @@ class Port_Matcher
             const char *arg_str = rtosc_argument_string(msg);
             bool      arg_match = *pattern || *pattern == *arg_str;
 
-            while(*pattern && *pattern != ':')
-                arg_match &= (*pattern++==*arg_str++);
+            while(*pattern && *pattern != ':') {
+                //do not step over the end of the message's type string
+                arg_match &= (*pattern==*arg_str);
+                ++pattern;
+                if(*arg_str)
+                    ++arg_str;
+            }
 
             if(*pattern==':') {
                 if(arg_match && !*arg_str)
